@@ -733,6 +733,18 @@ func main() {
 			doUnpackVia(w, i%8 == 1)
 		}
 	}
+	if *mal > 0 {
+		// systematically: messages cut at every offset of their last record (whatever its type), as they are and
+		// with the record's RDLENGTH left announcing more than is there
+		for k := 0; k < 48; k++ {
+			w := randWire(3)
+			for cut := max(12, len(w)-72); cut < len(w); cut++ {
+				if m := doUnpack(w[:cut]); m != nil {
+					dnsmsg.ReleaseMsg(m)
+				}
+			}
+		}
+	}
 	for i := 0; i < *lim; i++ {
 		limCase(i)
 	}
